@@ -54,8 +54,34 @@ def validate_and_store(seed, wt):
     return bool(ok)
 
 
+def revalidate(seeds):
+    """Every seed that applies: does its demonstration still fail with the change and pass without it?"""
+    from concurrent.futures import ThreadPoolExecutor
+
+    def one(seed):
+        if not applies(seed):
+            return seed, "does not apply"
+        wt = f"/tmp/wt/reval-{seed}"
+        sh(f"git -C {REPO} worktree remove --force {wt}")
+        sh(f"git -C {REPO} worktree add -q --detach {wt} HEAD")
+        env = dict(os.environ, PYTHONPATH=os.path.join(wt, "src"))
+        demo = f"{HERE}/seeded/{seed}/demo.py"
+        rc0, _ = sh(f"timeout 600 /venv/bin/python {demo}", cwd=wt, env=env)
+        sh(f"git apply {HERE}/seeded/{seed}/patch.diff", cwd=wt)
+        rc1, _ = sh(f"timeout 600 /venv/bin/python {demo}", cwd=wt, env=env)
+        sh(f"git -C {REPO} worktree remove --force {wt}")
+        return seed, ("ok" if rc1 != 0 and rc0 == 0 else f"INVALID: demo with change exit={rc1}, without exit={rc0}")
+
+    with ThreadPoolExecutor(8) as ex:
+        for seed, res in ex.map(one, seeds):
+            print(f"  {seed}: {res}")
+
+
 def main():
     args = sys.argv[1:]
+    if args and args[0] == "--revalidate":
+        revalidate(sorted(d for d in os.listdir(f"{HERE}/seeded") if os.path.exists(f"{HERE}/seeded/{d}/patch.diff")))
+        return
     if args and args[0] == "--finish":
         for seed in args[1:]:
             validate_and_store(seed, f"/tmp/wt/port-{seed}")
